@@ -29,7 +29,7 @@ Assumed('wpull/protocol/http/client.py', 'Session.start', {'self': TObj('HTTPSes
         note='one HTTP request on the wire; `response.request = request` (client.py); verified for framing under C04/C08')
 VISIT_INV = [J, '%s >= 0' % R, 'self.g_auth_retries >= 0', 'self.g_auth_retries <= 1', 'implies(self.g_auth_retries >= 1 and self._next_request is not None, self._loop_type == %s)' % AUTH,
              'implies(self._next_request is not None, self._next_request._url_info is not None)',
-             'truthy(self._original_request.method)', 'truthy(self._original_request.version)', 'self.g_requests >= 0']
+             'truthy(self._original_request.method)', 'truthy(self._original_request.version)', 'self._original_request._url_info is not None', 'self.g_requests >= 0']
 Contract(W, 'WebSession.start', S, ret=TObj('HTTPResponse'), prop='C18',
     requires=VISIT_INV + ['self._next_request is not None'],
     modifies=['self._current_session', 'self._next_request', 'self._loop_type', 'self._hostnames_with_auth', 'self.g_auth_retries', 'self.g_requests',
@@ -38,7 +38,7 @@ Contract(W, 'WebSession.start', S, ret=TObj('HTTPResponse'), prop='C18',
     ghost_update=[('self.g_requests', 'old(self.g_requests) + 1')],
     ensures=[('one-request', 'self.g_requests == old(self.g_requests) + 1'),
              ('variant', 'implies(self._next_request is not None, %s < old(%s) and %s >= 0)' % (M, M, M)),
-             ('J', J), ('counter', '%s >= old(%s)' % (R, R)),
+             ('J', J), ('counter', '%s >= old(%s)' % (R, R)), ('original-keeps-its-url', 'self._original_request._url_info == old(self._original_request._url_info)'),
              ('next-has-url', 'implies(self._next_request is not None, self._next_request._url_info is not None)'),
              ('auth-once', 'self.g_auth_retries <= 1 and implies(self.g_auth_retries >= 1, self._loop_type == %s or self._next_request is None)' % AUTH),
              ('ghost-nonneg', 'self.g_auth_retries >= 0'),
